@@ -321,6 +321,19 @@ def run_case(case, R):
                     R.fail(lab0.split("(")[0], "exception", f"{lab0} start={start} stop={stop} D={D}: {type(err).__name__}: {err}", tags=[f"D={D}", "defaults"])
                     continue
                 bad0 = compare_index_rows(got0.reshape(-1, D), su, am, g0, r0) if got0.size else (None if not su else "empty result")
+                if D == 1 and not bad0 and not isinstance(start, list) and not isinstance(stop, list) and lab0.startswith("glexindex(start, stop, D)"):
+                    # one dimension is the default: dimensions omitted, and only the stop bound given when start is 0
+                    alts = [("bindex(start, stop)", lambda: numpoly.bindex(start, stop)), ("glexindex(start, stop)", lambda: numpoly.glexindex(start, stop))]
+                    if start == 0:
+                        alts += [("bindex(stop)", lambda: numpoly.bindex(stop)), ("glexindex(stop)", lambda: numpoly.glexindex(stop))]
+                    for lab1, f1 in alts:
+                        R.tr()
+                        try:
+                            g1 = numpy.asarray(f1()).reshape(-1, 1)
+                            if g1.tolist() != got0.reshape(-1, 1).tolist():
+                                R.fail(lab1.split("(")[0], "wrong-value", f"{lab1} start={start} stop={stop}: {g1.ravel().tolist()} != with dimensions=1 {got0.ravel().tolist()}", tags=["D=1", "defaults"])
+                        except Exception as err:  # noqa: BLE001
+                            R.fail(lab1.split("(")[0], "exception", f"{lab1} start={start} stop={stop}: {type(err).__name__}: {err}", tags=["D=1", "defaults"])
                 if bad0:
                     R.fail(lab0.split("(")[0], "wrong-value", f"{lab0} start={start} stop={stop} D={D} with defaults: {bad0}", tags=[f"D={D}", "defaults"])
             # bindex orderings (default norm and inf)
@@ -396,6 +409,17 @@ def run_case(case, R):
                             except Exception as err:  # noqa: BLE001
                                 if sure:
                                     R.fail("monomial", "exception", f"{lab2}: {type(err).__name__}: {err}", tags=[f"D={D}", f"dimensions={dform}"])
+                        if not graded and not reverse and ct == 1:
+                            # every optional argument left at its default
+                            R.tr()
+                            try:
+                                d0 = numpoly.monomial(start, stop, dimensions=D)
+                                e0 = numpoly.monomial(start, stop, dimensions=D, cross_truncation=1, graded=False, reverse=False)
+                                if sure and (d0.shape != e0.shape or alpha(d0) != alpha(e0) or tuple(d0.names) != tuple(e0.names)):
+                                    R.fail("monomial", "wrong-value", f"monomial({start}, {stop}, dimensions={D}) with defaults: {str(d0)[:100]} != explicit defaults {str(e0)[:100]}", tags=[f"D={D}", "defaults"])
+                            except Exception as err:  # noqa: BLE001
+                                if sure:
+                                    R.fail("monomial", "exception", f"monomial({start}, {stop}, dimensions={D}) with defaults: {type(err).__name__}: {err}", tags=[f"D={D}", "defaults"])
                         R.tr()
                         lab = f"monomial({start}, {stop}, dimensions={D}, cross_truncation={ct}, graded={graded}, reverse={reverse})"
                         try:
